@@ -15,6 +15,8 @@ Forward abstract interpretation with
 Only normal control flow is followed; at every user-call site a hook lets rules (C16) inspect the state the unwind would see.
 """
 import itertools
+import os
+import time
 from .lin import Lin, Num, le, lt, eq, ge, gt, as_lin, cstr
 from .cfg import cfg_of
 from .models import norm
@@ -88,6 +90,8 @@ class Interp:
         self._splice_cache = {}
         self._unlink_cache = {}
         self.block_budget = 30000
+        self.time_budget = int(os.environ.get("LMV_E3_TIME_BUDGET", "150"))     # seconds per entry point (fail closed beyond)
+        self.t_start = time.time()
         self.stats = {"blocks": 0, "calls_inlined": 0, "joins": 0, "entail": 0, "states": 0}
         self.variant_names = dict(ENUM_VARIANTS)
         for n, a in self.f.adts.items():
@@ -870,6 +874,8 @@ class Frame:
                 ip.stats["blocks"] += 1
                 if ip.stats["blocks"] > ip.block_budget:
                     raise Unsupported("block budget exhausted (%d) in %s" % (ip.block_budget, self.body.path))
+                if ip.stats["blocks"] % 64 == 0 and time.time() - ip.t_start > ip.time_budget:
+                    raise Unsupported("time budget exhausted (%d s) in %s" % (ip.time_budget, self.body.path))
                 for (succ, s2, rv) in self.transfer(bb, s.fork()):
                     if succ is None:
                         rets.append((rv, s2))
